@@ -6,7 +6,7 @@ storage is compared with the reference model (an ordered list of
 transactions).  Clock stalls / steps back and close+reopen are ordinary
 steps of the alphabet.
 """
-from mc import battery, env, seqx, world
+from mc import battery, env, fsparse, seqx, world
 
 MOD = 'checks.c04_history'
 
@@ -41,6 +41,14 @@ def node(w, hist, cfg, res):
                      dict(query=q, expected=repr(e)[:400],
                           got=repr(g)[:400])))
     res.clause('C04.battery', len(exp))
+    if w.flavor == 'F':
+        with open(w.path, 'rb') as f:
+            diff = fsparse.check_against_model(f.read(), m)
+        res.clause('C04.struct')
+        if diff:
+            viol.append(('struct', '%s:%s' % (cfg['kind'],
+                                              diff.split(':')[0]),
+                         dict(diff=diff)))
     if hist:
         res.outcome(w.outcomes[-1] if w.outcomes else hist[-1][0])
     return len(exp), len(m.txns) >= 2, viol
